@@ -325,6 +325,7 @@ class HSFZConfig(BaseModel):
     @field_validator(
         "src_addr",
         "dst_addr",
+        "ack_timeout",
         mode="before",
     )
     def auto_int(cls, v: str) -> int:
